@@ -167,7 +167,7 @@ def run(ctx):
             cons = [e for e in Q.calls(eng, None, in_fn="adss::recover")
                     if (e.get("dname") or "").startswith("std::iter::Iterator::") and "peekable" not in (e.get("dname") or "")
                     and any(Q.contains(a, lambda t: t.op == "adapted" and "peekable" in t.args[1:]) for a in e["argv"])]
-            okp = all(cfg.dominates(peeks[0]["block"], e["block"]) for e in cons)
+            okp = all(cfg.dominates(peeks[0]["home_block"], e["home_block"]) for e in cons)
         else:
             okp = all(p.startswith("shares.first") for p in pa) and bool(pa)
         ctx.add("C05.R3", "adss::recover#first-share", okp,
@@ -201,7 +201,7 @@ def run(ctx):
     # the caller's first share stays the first share on the way down: share_recover -> adss::recover -> Sharks::recover
     for root_, callee_, argi_ in (("sta_rs::share_recover", "adss::recover", 0), ("adss::recover", "star_sharks::Sharks::recover", 1)):
         e_, r_, _, f_ = ctx.root(root_)
-        cs_ = [e for e in Q.calls(e_, callee_) if e["frame"] == f_.key]
+        cs_ = [e for e in Q.calls(e_, callee_) if e["home"] == f_.key]
         ok_ = len(cs_) == 1
         det_ = "%d call(s)" % len(cs_)
         if ok_:
